@@ -14,4 +14,9 @@ done
 ./bin/srcfacts -repo /repo -out coq/theories/Gen >/dev/null
 (cd coq && coq_makefile -f _CoqProject -o Makefile >/dev/null 2>&1 && timeout 3000 make -j16 >work_build.log 2>&1 || { tail -40 work_build.log; exit 1; })
 rm -f coq/work_build.log
+# warm the Go build cache for the packages the checks compile (plain and -race); failures here are not fatal
+(cd /repo && for p in ./agent/ ./agent/utils/ ./agent/sessions/ ./agent/websockets/ ./agent/banner/ ./server/ ./app/store/ ./utils/tcpbridge/connection/; do
+   go test -count=1 -vet=off -run '^$' $p >/dev/null 2>&1 || true; done
+ for p in ./agent/ ./server/ ./agent/websockets/ ./agent/sessions/; do go test -race -count=1 -vet=off -run '^$' $p >/dev/null 2>&1 || true; done
+ go build -o /dev/null ./server ./agent ./utils/tcpbridge/tcp-bridge-frontend ./utils/tcpbridge/tcp-bridge-backend >/dev/null 2>&1 || true) 
 echo "setup done"
